@@ -69,7 +69,7 @@ def defaults_applied(model, doc):
     for f in model["fields"]:
         if f.get("default") and f["name"] not in doc:
             d2[f["name"]] = fields.KINDS[f["kind"]][1]
-        ref = fields.KINDS[f["kind"]][0].get("$ref", "").rsplit("/", 1)[-1]
+        ref = (fields.KINDS[f["kind"]][0] or {}).get("$ref", "").rsplit("/", 1)[-1]
         if ref in fields.NAMED_ENUMS and f["name"] not in doc:
             d2[f["name"]] = fields.NAMED_ENUMS[ref]["default"]  # the referenced schema declares the default
     return d2
